@@ -25,6 +25,32 @@ CHECKS = [
      "recorded instance, the schema path (hopping through references) reaches the recorded keyword value inside the recorded "
      "schema, absolute = parent + relative, json_path renders the path; locations equal the reference evaluator's.",
      "documented exceptions (draft 3 required, propertyNames, false schema) modelled explicitly; bounded grammar", "5 C06"),
+    ("C03", "exploration", "exhaustive enumeration of metaschema-accepted hostile schemas x instances x entry points; oracle = set of exception types allowed to escape, 5 s watchdog",
+     "Every {keyword: w} over a 60-value hostile universe (anything the metaschema might let through) and the sibling-group "
+     "products, alone and at every subschema position, that the real check_schema accepts, validated against a hostile "
+     "instance universe through all four entry points: nothing but ValidationError / RefResolutionError / (Draft 3) "
+     "UnknownType escapes and nothing runs longer than the watchdog.",
+     "5 s watchdog stands for non-termination; instance nesting kept below the interpreter's recursion limit; one open known finding (in-place reference cycles)", "5 C03"),
+    ("C04", "exploration", "exhaustive enumeration; metamorphic relations between the implementation's own entry points",
+     "On every enumerated (schema, instance, draft, class selection, format checker) the four entry points agree as the "
+     "property states, validate() raises the first error, module validate() raises best_match (a top-level or context-free "
+     "descendant error), invalid schemas raise the metaschema's first violation as SchemaError before the instance is "
+     "touched (trip-wire instance), and repeating any call gives identical results.",
+     "relations between runs of the implementation: no external oracle; bounded grammar", "5 C04"),
+    ("C08", "exploration", "exhaustive enumeration of ordered value pairs and arrays vs. a canonical-form equality model + three-way agreement",
+     "All ordered pairs of a 736-value JSON universe (depth <= 2) through const / enum / uniqueItems in every draft, and all "
+     "length-3 arrays over a 40-value mixed universe, agree with exact JSON equality and with each other.",
+     "type-tagged canonical form with Fractions as the model; strings limited to four atoms", "5 C08"),
+    ("C09", "exploration", "exhaustive enumeration of ordered number pairs vs. exact rational arithmetic",
+     "All ordered pairs (instance, bound/divisor) of a 137-number universe spanning the whole float exponent range and "
+     "integers up to thousands of digits, for every numeric keyword form of every draft: bounds always equal the Fraction "
+     "verdict; multipleOf equals it on the exact sub-domain the property defines; nothing raises.",
+     "integers beyond CPython's 4300-digit str limit are outside the bound (their repr in an error message raises)", "5 C09"),
+    ("C11", "exploration", "exhaustive enumeration of candidate schemas vs. the reference evaluator applied to the metaschema file",
+     "check_schema of each draft class returns exactly when an independent evaluator says the candidate satisfies the "
+     "bundled metaschema file, and raises only SchemaError, over every hostile {keyword: value} at every subschema position "
+     "(55k candidates per draft in the quick tier); each metaschema is accepted by its own class.",
+     "trusts mc/ref/spec.py; format inert", "5 C11"),
 ]
 
 
